@@ -65,6 +65,16 @@ def register(claim):
           "','-decimal-point shim and a shifted clock and the sha256 of code, database, text dump and interrogate_module output compared.",
           "Partial: purity of the rest of the pipeline (no other address/uninitialised/locale/time dependence) is explored by those reruns, not proved.",
           "Lean 4 proof (permutation invariance of the sort stage, identifier logic) + regenerated facts + differential reruns (exploration)", "DESIGN.md §5 C14")
+    claim("C08",
+          "Lean 4 theorem for the # operator: for EVERY argument that is a sequence of well-lexed tokens, the model of CPPManifest::stringify yields "
+          "'\"' + body + '\"' whose body, with the escapes \\\\ and \\\" undone, is exactly the argument (c08_stringify_roundtrip, by induction over the "
+          "character loop with the quoting automaton as invariant) — an escaped quote never ends the literal early; the termination measure of the "
+          "ignore-set recursion is c15_expand_measure. The stringify model is tied to parse_file -E on generated arguments; whole macro programs from a "
+          "feature grammar (object-/function-like, nested, multi-line, empty and parenthesised-comma arguments, #, ##, __VA_ARGS__, ', ## __VA_ARGS__', "
+          "__VA_OPT__, #undef/redefinition, push/pop_macro) are compared token by token with gcc -E.",
+          "Partial: conformance of r_expand / argument collection / rescanning is explored against gcc per run, not proved. Two known findings (no hide "
+          "sets: re-expansion of an exempted token; white space inside # results).",
+          "Lean 4 proof (# round trip) + differential correspondence + gcc -E oracle (exploration)", "DESIGN.md §5 C08")
     claim("C20",
           "Lean 4 theorems: guarded accessors return the neutral value off-range and the entry in range; every lookup answers from the current maps "
           "for every sequence of requests/lookups/queries (cache invariant by induction over operations) and is sound/absent/exact; the unique-name "
